@@ -46,6 +46,12 @@ type LinCtx struct {
 	// Assumed lists assumptions used (for the evidence).
 	Assumed map[string]bool
 	intW    int // width of int on the analysed target
+	// rp, when set (by the prover), is asked to prove lo ≤ l ≤ hi at the definition of an instruction
+	rp func(at ssa.Instruction, l Lin, lo, hi int64) bool
+	// callFacts, when set, returns facts about the result of an in-repo call (return facts)
+	callFacts func(c *ssa.Call) []Lin
+	// entry facts (each ≤ 0) that hold throughout the function (constant parameters of unexported functions)
+	entry []Lin
 	phiDepth int
 }
 
@@ -320,6 +326,14 @@ func (c *LinCtx) bounds(l Lin) (lo, hi int64, okLo, okHi bool) {
 		var hasLo, hasHi bool
 		if k.kind != akVal {
 			alo, hasLo = 0, true
+			if k.kind == akLen || k.kind == akCap {
+				// no in-memory slice or string holds 2^50 elements (and on 32-bit targets len < 2^31)
+				ahi, hasHi = int64(1)<<50, true
+				if c.intW == 32 {
+					ahi = int64(1)<<31 - 1
+				}
+				c.Assumed["len()/cap() of any in-memory slice or string is below 2^50"] = true
+			}
 		} else if _, isInt := intBasic(k.v.Type()); isInt {
 			tl, th, hh := c.typeBounds(k.v.Type())
 			if isUnsignedT(k.v.Type()) {
@@ -457,10 +471,15 @@ func (c *LinCtx) linCompute(v ssa.Value, nn nonNegProver) Lin {
 			if c.fitsType(r, x.Type()) {
 				return r
 			}
-			if x.Op == token.SUB && nn != nil {
-				if in, ok := v.(ssa.Instruction); ok && nn(in, r) {
-					// no borrow; the upper bound follows from the minuend
-					return r
+			if c.rp != nil {
+				if in, ok := v.(ssa.Instruction); ok {
+					_, hi, hasHi := c.typeBounds(x.Type())
+					if !hasHi {
+						hi = math.MaxInt64 / 4
+					}
+					if c.rp(in, r, 0, hi) {
+						return r
+					}
 				}
 			}
 			return self()
@@ -526,6 +545,13 @@ func (c *LinCtx) lenCompute(v ssa.Value) Lin {
 		return constLin(t.Len())
 	}
 	switch x := v.(type) {
+	case *ssa.UnOp:
+		// axiom A5: a package-level slice assigned only by its initialiser has the initialiser's length
+		if g, ok := x.X.(*ssa.Global); ok && x.Op == token.MUL && c.p != nil {
+			if vals, ok := c.p.constIntTable(g); ok && c.p.assignedOnlyByInit(g) {
+				return constLin(int64(len(vals)))
+			}
+		}
 	case *ssa.Const:
 		if x.Value != nil && x.Value.Kind() == constant.String {
 			return constLin(int64(len(constant.StringVal(x.Value))))
@@ -758,6 +784,12 @@ func (c *LinCtx) Intrinsic(ls []Lin, nn nonNegProver) []Lin {
 			return okLo && l >= 0
 		}
 		switch x := v.(type) {
+		case *ssa.Call:
+			if c.callFacts != nil {
+				for _, l := range c.callFacts(x) {
+					emit(l)
+				}
+			}
 		case *ssa.BinOp:
 			switch x.Op {
 			case token.QUO, token.SHR:
